@@ -6,7 +6,7 @@
    besides completion output is stdout (the usage screen of a `fallback_to_usage` level entered with nothing in its
    scope) and the explicit panic / fuel outcomes.  Mutual induction over the parser. *)
 From BpafLemmas Require Import Tac EvalEq Find.
-From BpafModel Require Import CompEval.
+From BpafModel Require Import Message CompEval.
 
 Definition krev (k : option cst) : option nat := option_map cs_rev k.
 
@@ -150,3 +150,47 @@ Proof. intros f; discriminate. Qed.
 Hint Resolve rfin_ok rfin_panic rfin_fuel : core.
 
 End Always.
+
+(* ------------------------------------------------------------------ one command level *)
+Definition rev_ok (r : nat) : Prop := In r [0; 1; 7; 8; 9].
+
+(* the word to complete is found as soon as the line holds an item with valid UTF-8 text *)
+Lemma check_complete_some s c :
+  lit_items s <> [] -> rev_ok (cs_rev c) -> exists t, check_complete s c = Some t.
+Proof.
+  intros Hl Hr. unfold check_complete. destruct (lit_items s) as [|[cur lit] rest]; [congruence|].
+  repeat match goal with |- context [let '(a, b) := ?e in _] => destruct e end.
+  unfold rev_ok in Hr. cbn [In] in Hr.
+  destruct Hr as [<-|[<-|[<-|[<-|[<-|[]]]]]]; eexists; reflexivity.
+Qed.
+
+(* a command level that is left with the hints in hand answers with completion output: whatever its parser returned
+   (a value, a missing item, a conversion failure ..), the outcome is neither that value nor an error message *)
+Theorem level_answers_with_completion env inf m s r s1 c :
+  early inf s r = false -> lit_items s1 <> [] -> rev_ok (cs_rev c) ->
+  exists t, c_run_sub_body env inf m (s, Some c) (r, (s1, Some c)) = (SFail (FCompletion t), (s1, Some c)).
+Proof.
+  intros He Hl Hr. unfold c_run_sub_body. cbn [fst]. destruct (run_sub_body env inf m s (r, s1)) as [pr ps].
+  rewrite He. destruct (check_complete_some s1 c Hl Hr) as [t ->]. eexists. reflexivity.
+Qed.
+
+(* whatever a hidden parser pushed is dropped: after hide() the hints are the ones collected before it *)
+Lemma hide_drops_hints cev s c :
+  snd (snd (c_hide_body cev (s, Some c))) = None \/ kcomps (snd (snd (c_hide_body cev (s, Some c)))) = cs_comps c.
+Proof.
+  unfold c_hide_body. cbn [kswap]. destruct (cev _) as [r [s' k']].
+  destruct k' as [c'|]; cbn [kswap fst].
+  - right. destruct r; try reflexivity. destruct m; reflexivity.
+  - left. destruct r; try reflexivity. destruct m; reflexivity.
+Qed.
+
+(* the name of a subcommand as the last item of the line: the command is not entered, every hint collected so far is
+   dropped and the command name itself is the one hint *)
+Lemma cmd_name_last docgen name aliases shorts help adjacent m i run s c s1 :
+  take_cmd_any ((name :: aliases) ++ map utf8_encode_char shorts) s = (true, s1) ->
+  touching_last s1 (Some c) = true ->
+  c_cmd_body docgen name aliases shorts help adjacent m i run (s, Some c) =
+  (RErr (MsgMissing []),
+   (s1, Some (mkCst [CoCommand (mkExtra (depth s1) None (help_completion docgen help)) (chars_of name) (hd_error shorts)]
+                    (cs_rev c) (cs_nopos c)))).
+Proof. intros Ht Hl. unfold c_cmd_body. rewrite Ht, Hl. reflexivity. Qed.
